@@ -216,6 +216,49 @@ Theorem C03_key_rules :
 Proof. split; [exact rsa_ctor_ok_iff_proof|exact ecdsa_params_ok_iff_proof]. Qed.
 Print Assumptions C03_key_rules.
 
+(* ---------------- further consequences ---------------- *)
+
+(* The accepted byte strings are in bijection with the accepted raw
+   signatures: no second encoding of the same (r, s) verifies. *)
+Theorem C03_ecdsa_encoding_injective :
+  forall k r s r' s' sig,
+    ecdsa_frame k r s = Some sig -> ecdsa_frame k r' s' = Some sig ->
+    sig_fits k r s -> sig_fits k r' s' -> r = r' /\ s = s'.
+Proof. exact ecdsa_frame_inj. Qed.
+Print Assumptions C03_ecdsa_encoding_injective.
+
+(* A signature accepted under one non-RAW prefix is rejected under any other
+   (other variant start byte or other key id). *)
+Theorem C03_ecdsa_other_prefix_rejected :
+  forall H raw k v' id' sig msg,
+    ecdsa_verify H raw k sig msg = Ok tt -> ek_variant k <> VRaw -> v' <> VRaw ->
+    prefix (ek_variant k) (ek_id k) <> prefix v' id' ->
+    ecdsa_verify H raw (with_variant k v' id') sig msg = Err.
+Proof. exact ecdsa_other_prefix_rejected. Qed.
+Print Assumptions C03_ecdsa_other_prefix_rejected.
+
+(* LEGACY is CRUNCHY over message || 0x00, for all four schemes. *)
+Theorem C03_legacy_is_crunchy_over_suffixed_message :
+  forall H raw ed_raw pkcs1_raw pss_raw k id pub rk sig msg,
+    ecdsa_verify H raw (with_variant k VLegacy id) sig msg =
+      ecdsa_verify H raw (with_variant k VCrunchy id) sig (msg ++ [0]) /\
+    ed25519_verify ed_raw VLegacy id pub sig msg = ed25519_verify ed_raw VCrunchy id pub sig (msg ++ [0]) /\
+    pkcs1_verify H pkcs1_raw (rsa_with_variant rk VLegacy) sig msg =
+      pkcs1_verify H pkcs1_raw (rsa_with_variant rk VCrunchy) sig (msg ++ [0]) /\
+    pss_verify H pss_raw (rsa_with_variant rk VLegacy) sig msg =
+      pss_verify H pss_raw (rsa_with_variant rk VCrunchy) sig (msg ++ [0]).
+Proof.
+  intros. split; [apply ecdsa_legacy_is_crunchy|]. split; [apply ed25519_legacy_is_crunchy|].
+  apply rsa_legacy_is_crunchy.
+Qed.
+Print Assumptions C03_legacy_is_crunchy_over_suffixed_message.
+
+Theorem C03_p1363_curveless_decoder_lengths :
+  forall b r s, p1363_decode_any b = Ok (r, s) ->
+    length b = 64%nat \/ length b = 96%nat \/ length b = 132%nat.
+Proof. exact p1363_decode_any_lengths. Qed.
+Print Assumptions C03_p1363_curveless_decoder_lengths.
+
 (* ---------------- the premises are inhabited ---------------- *)
 
 Definition toyH (_ : hasht) (m : bytes) : bytes := m.
